@@ -716,14 +716,20 @@ class M(gen_builder.T):
             fail(m, f"return annotation {rs} of {name}")
         return params, RET[rs]
 
+    XF_CHAIN = [("GCodeCore", "_transform_move"), ("GCodeBuilder", "_transform_move"), ("GCodeCore", "move"), ("GCodeCore", "rapid")]
+
     def motion_method_T(self, cls, name):
-        """the same method once more, with `self.transform.apply_transform` an arbitrary function `T` (the transformer in effect)"""
+        """the same method once more, with `self.transform.apply_transform` an arbitrary function `T` (the transformer in effect);
+        calls to the other methods of the chain go to their `_T` forms"""
         self.xf_fn = "T"
         try:
             text = self.motion_method(cls, name)
         finally:
             self.xf_fn = "applyTransformId"
-        if "(T " not in text:
+        for c, n in self.XF_CHAIN:
+            if (c, n) != (cls, name):
+                text = text.replace(f"{c}.{n} ", f"{c}.{n}_T T ")
+        if "(T " not in text and "_T T " not in text:
             raise Unsupported(f"{cls}.{name} does not apply the transform")
         return (text.replace(f"def {cls}.{name} (self : BSt)", f"def {cls}.{name}_T (T : Pt → Pt) (self : BSt)", 1)
                     .replace(f"/-- `{cls}.{name}` (source line", f"/-- `{cls}.{name}` under an arbitrary transform `T = self.transform.apply_transform` (source line", 1))
@@ -885,7 +891,8 @@ class M(gen_builder.T):
         out.append("/-- what a hook reads off the state object it is handed: `state.extrusion_mode`, `state.get_parameter(\"E\")` -/")
         out.append("def hookEnv (g : GState) : HookEnv :=\n  ⟨decide (g._current_extrusion_mode = ExtrusionMode.RELATIVE), (g._current_params.get \"E\").getD 0⟩\n")
         out += meths
-        out.append(self.motion_method_T("GCodeCore", "_transform_move"))
+        for c, n in self.XF_CHAIN:
+            out.append(self.motion_method_T(c, n))
         out.append(self.init_def())
         out.append("def translated : List String := [" + ", ".join(f'"{c}.{n}"' for c, n in METHODS) + "]\n")
         out.append("end GscribModel.Gen.MotionSrc")
